@@ -118,7 +118,7 @@ package server
 //@   at-call (*allocation.Manager).GetAllocationForUserID assert [C03,C04:own-tuple] recv == req.AllocationManager && ownTuple(arg0, req) && authOK && arg1 == authUser
 //@   at-call (*allocation.Manager).GrantPermission assert [C01:veto-subject] recv == req.AllocationManager && arg0 == req.SrcAddr && ipStr(arg1) == xorAddrIP(stunMsg, stun.AttrXORPeerAddress)
 //@   at-call (*allocation.Allocation).AddChannelBind assert [C01,C04:own-allocation] recv == ownAlloc(req)
-//@   at-call (*allocation.Allocation).AddChannelBind assert [C07:timeouts] arg1 == req.ChannelBindTimeout && arg2 == req.PermissionTimeout
+//@   at-call (*allocation.Allocation).AddChannelBind assert [C01,C07:timeouts] arg1 == req.ChannelBindTimeout && arg2 == req.PermissionTimeout
 //@   at-call (*allocation.Allocation).AddChannelBind assert [C01,C08:binding] int(arg0.Number) == be16(attr(stunMsg, stun.AttrChannelNumber), 0) && peerMatches(arg0.Peer, stunMsg)
 //@   ensures [C03:answered-only-requester] forall c :: c != req.Conn ==> pktWrites[c] == old(pktWrites[c])
 
@@ -166,7 +166,7 @@ package server
 //@   requires [C01:permKeys] permKeysOK(alloc)
 //@   at-call (*allocation.Manager).GrantPermission assert [C01:veto-subject] recv == req.AllocationManager && arg0 == req.SrcAddr && ipStr(arg1) == xorAddrIP(m, stun.AttrXORPeerAddress)
 //@   at-call (*allocation.Allocation).AddPermission assert [C01,C04:own-allocation] recv == alloc
-//@   at-call (*allocation.Allocation).AddPermission assert [C07:timeout] arg0.timeout == req.PermissionTimeout
+//@   at-call (*allocation.Allocation).AddPermission assert [C01,C07:timeout] arg0.timeout == req.PermissionTimeout
 //@   at-call (*allocation.Allocation).AddPermission assert [C01:peer] peerMatches(arg0.Addr, m)
 //@   assigns entries(alloc.permissions), timers, granted, errorCode, addCount
 
@@ -191,6 +191,7 @@ package server
 //@   at-call (*allocation.Manager).GetAllocationForUserID assert [C03,C04:own-tuple] recv == req.AllocationManager && ownTuple(arg0, req) && authOK && arg1 == authUser
 //@   at-call (*allocation.Allocation).Refresh assert [C04,C06:refresh-value] recv == ownAlloc(req) && int(arg0) == lifetimeOf(req, stunMsg) && int(arg0) != 0
 //@   at-call (*allocation.Manager).DeleteAllocation assert [C03,C04,C06:zero-deletes] recv == req.AllocationManager && ownTuple(arg0, req) && authOK && lifetimeOf(req, stunMsg) == 0 && ownAlloc(req) != nil && ownAlloc(req).userID == authUser
+//@   at-call buildAndSendErr assert [C06:rejected-refresh-no-effect] ownAlloc(req) == old(ownAlloc(req)) && (forall t :: dur(t) == old(dur(t)) && armed(t) == old(armed(t)))
 //@   at-call buildAndSend assert [C06,C19:lifetime-echo] int(typeOf(arg2).Class) == 2 ==> authOK && len(arg2) == 4 && typeis(arg2[2], *proto.Lifetime) && int(arg2[2].(*proto.Lifetime).Duration) == lifetimeOf(req, stunMsg)
 //@   at-call buildAndSend assert [C06:done-before-success] int(typeOf(arg2).Class) == 2 ==> (lifetimeOf(req, stunMsg) == 0 ? ownAlloc(req) == nil : timerSet(old(ownAlloc(req)).lifetimeTimer, lifetimeOf(req, stunMsg)))
 //@   ensures [C03:answered-only-requester] forall c :: c != req.Conn ==> pktWrites[c] == old(pktWrites[c])
